@@ -165,9 +165,17 @@ CLAIMED["C18"] = dict(engine="yast",
          "constructor has an unconditional removal from the same catalog in the destructor; add_function registers a definition once. Correctness for "
          "all histories follows by induction over operations, which is not mechanised here.",
     design_ref="DESIGN.md section 4, C18")
+CLAIMED["C19"] = dict(engine="yast",
+    technique="AST table-inclusion rule on generator::keywords; classification of the skip conditions of add_forward_declaration; path table of starts_with",
+    text="Decides the second sentence of the property only (which words of a type description are skipped and which are kept): the keyword table holds "
+         "every keyword a demangled type description can contain (fundamental types incl. the wide character types, cv-qualifiers, elaborated-type "
+         "keywords - a reasoned list in the checker); a matched word is dropped only as a template name, a non-identifier, a word of that table or "
+         "a std:: / yorel:: entity (prefixes with the scope operator), and every other word is recorded unconditionally; detail::starts_with is "
+         "'begins with'. Does NOT decide the writer: balance of the namespace braces, one declaration per class, exactly its namespace (a string "
+         "algorithm over run-time characters). One defect found and repaired (F16).",
+    design_ref="DESIGN.md section 4, C19")
 NA = {
  "C06": "2-safety property over permutations of run-time registration lists; the order-sensitive code (incremental elimination in best(), iteration-order driven slot and group numbering) has no shape-level rule that would not also fire on a correct rewrite - see DESIGN.md section 4, C06",
- "C19": "string algorithm whose correctness depends on the characters of run-time inputs (prefix bookkeeping between sorted names, a regular expression); no pairing, layering or layout clause to check statically - see DESIGN.md section 4, C19",
 }
 DEFAULT_NA = "check not built yet (see DESIGN.md section 4 for the planned clause)"
 
@@ -178,7 +186,7 @@ m = {"version": 1,
                "source_commits": [], "add_only": True},
      "engines": [
         {"name": "yast", "path": "engine/yast.cpp", "kind_free_text": "clang front-end plugin serialising instantiated, type-resolved ASTs, CFGs, static-storage variables with policy keys; Python rules lib/yv/astq.py + checks",
-         "serves_properties": ["C01", "C02", "C03", "C04", "C05", "C07", "C08", "C09", "C10", "C11", "C12", "C13", "C14", "C15", "C17", "C18"]},
+         "serves_properties": ["C01", "C02", "C03", "C04", "C05", "C07", "C08", "C09", "C10", "C11", "C12", "C13", "C14", "C15", "C17", "C18", "C19"]},
         {"name": "e3", "path": "lib/yv/e3.py", "kind_free_text": "generated compile-pass / compile-fail / static_assert witnesses decided by clang's type checker, diagnostics attributed per obligation",
          "serves_properties": ["C08", "C11", "C14", "C20"]},
         {"name": "yir", "path": "engine/yir.cpp", "kind_free_text": "LLVM-IR (post mem2reg) serialiser + Python rules lib/yv/{irq,eff,sym}.py: effect sets, symbolic summaries, path queries",
